@@ -83,6 +83,40 @@ def run(ctx):
     ctx.formula('FORMULA', 'the extra smearing time sample follows the (shifted) axis: ts_ext == append(ts, ts[-1] + dt)', te, rte.ret,
                 ctx.spec(te, 'np.append(self.ts, self.ts[-1] + self.dt)', I=ctx.interp(expand=False)), node=te.node,
                 construct='return ts_ext [relative to ts]')
+    # the shift reaches the signal only through the frame's time axis: in every mode (plain, sub-sample integration of the
+    # path / of the time profile, smearing) each evaluation of the user's path and time profile must be at times derived
+    # from self.ts -- a grid that starts at 0 would restart the drift / the profile in every frame after the first
+    fa = ctx.func('frame.Frame.add_signal')
+    saved = (dict(T.SYMKIND), set(T.NOTNONE))
+    T.SYMKIND.update({'path': 'callable', 't_profile': 'callable'})
+    T.NOTNONE.update({'path', 't_profile', 'f_profile'})
+    ts_key = T.mk_attr(sym('self'), 'ts').key
+    n_apps = 0
+    for ip in (FALSE, TRUE):
+        for it in (FALSE, TRUE):
+            for sm in (FALSE, TRUE):
+                ra, Ia = ctx.run(fa, args={'integrate_path': ip, 'integrate_t_profile': it, 'integrate_f_profile': FALSE,
+                                           'doppler_smearing': sm, 'bounding_f_range': NONE, 'bp_profile': NONE},
+                                 no_inline=('frame.Frame.get_index',))
+                terms = [ra.ret] + [e.data['value'] for e in Ia.events if e.kind == 'store' and isinstance(e.data.get('value'), Term)]
+                apps = {}
+                for t in terms:
+                    for a in T.all_atoms(t).values():
+                        if a.kind == 'call' and a.args[0] == 'apply' and a.args[1] and a.args[1][0].single_atom() is not None \
+                                and a.args[1][0].single_atom().kind == 'sym' and a.args[1][0].single_atom().args[0] in ('path', 't_profile'):
+                            apps[a.key] = a
+                for a in apps.values():
+                    n_apps += 1
+                    who = a.args[1][0].single_atom().args[0]
+                    arg = a.args[1][1] if len(a.args[1]) > 1 else NONE
+                    ok = any((x.kind == 'attr' and x.args[1] == 'ts' and x.args[0].key == sym('self').key)
+                             or (x.kind in ('loopvar', 'after') and str(x.args[0]).endswith('.ts'))
+                             for x in T.all_atoms(arg).values())
+                    ctx.ob('PROPAGATE', f'add_signal[integrate_path={ip.key == TRUE.key}, integrate_t_profile={it.key == TRUE.key}, '
+                           f'smearing={sm.key == TRUE.key}]: {who} is evaluated at times derived from the frame\'s own (shifted) time axis',
+                           fa, ok, {'evaluated_at': pretty(arg)[:200]}, node=fa.node, construct=f'{who}(<times>)')
+    T.SYMKIND.clear(); T.SYMKIND.update(saved[0]); T.NOTNONE.clear(); T.NOTNONE.update(saved[1])
+    ctx.require(n_apps >= 12, f'add_signal: only {n_apps} evaluations of the path / time-profile callables found (vacuity guard)')
     # ---- D2 restoration on every exit
     ctx.clause = 'D2'
     ctx.require(after, 'Cadence.add_signal never restores the frame time axis')
